@@ -468,6 +468,18 @@ class Frame:
                 raise Unsupported("item store on %r" % (o,))
         elif isinstance(t, (ast.Tuple, ast.List)):
             vs = self.it.iterate(v)
+            stars = [i for i, x in enumerate(t.elts) if isinstance(x, ast.Starred)]
+            if len(stars) == 1:
+                k = stars[0]
+                after = len(t.elts) - k - 1
+                if len(vs) < len(t.elts) - 1:
+                    raise PyRaise(ExcObj(self.it.builtins["ValueError"], ["unpack arity"]), t)
+                for tt, vv in zip(t.elts[:k], vs[:k]):
+                    self.assign(tt, vv)
+                self.assign(t.elts[k].value, list(vs[k:len(vs) - after]))
+                for tt, vv in zip(t.elts[k + 1:], vs[len(vs) - after:] if after else []):
+                    self.assign(tt, vv)
+                return
             if len(vs) != len(t.elts):
                 raise PyRaise(ExcObj(self.it.builtins["ValueError"], ["unpack arity"]), t)
             for tt, vv in zip(t.elts, vs):
